@@ -37,6 +37,7 @@ PF = gen.Profile(
     deps=0.75,
     gaps=True,
     dup_edges=True,
+    local_ids=True,
     onstart=True,
     precedes=True,
     relrefs=True,
